@@ -84,6 +84,9 @@ def run(ck, tier):
     if r.violated not in ("SettlesOnce", "Unchanged", "WaitsAgree", "Deadlock", "SettlesExactlyOnce"):
         raise vlib.Infra("negative control PromiseNeg not refuted (%s)" % r.violated)
     ck.mc("PromiseNeg", r, "as-found lock-free Wait refuted: %s" % r.violated)
+    r = vlib.tlc("Concurrent", "Lazily", "Lazily.cfg", workers=4, timeout=600)
+    vlib.tlc_expect_ok(r, "Lazily")
+    ck.mc("Lazily(extension)", r, "beyond the listed properties: lazy evaluator delivers in order, bounded lookahead")
     r = vlib.tlc("Concurrent", "MapChunks", "MapChunks.cfg", workers=4, timeout=600)
     vlib.tlc_expect_ok(r, "MapChunks")
     ck.mc("MapChunks", r, "chunk arithmetic partitions all n<=40, threads<=8, maxChunk<=9")
@@ -153,13 +156,15 @@ def run(ck, tier):
         ck.traces += len(evs)
         ck.evaluations += len(evs)
         for e in evs:
-            if (e["op"] == "map" and len(e["chunks"]) >= 2) or (e["op"] == "procrun" and e["t"] >= 2 and e["n"] >= 1):
+            if (e["op"] == "map" and len(e["chunks"]) >= 2) or (e["op"] == "procrun" and e["t"] >= 2 and e["n"] >= 1) \
+                    or (e["op"] == "lazy" and len(e["values"]) > 1):
                 nontriv.add(json.dumps([e.get(k) for k in ("op", "n", "threads", "maxchunk", "t", "b", "q")]))
         for l, why in v["fails"]:
             ck.violation("%s: %s" % (why, json.dumps(evs[l - 1])), {"kind": "conc-event", "event": evs[l - 1], "why": why})
         if v.get("drift"):
-            ck.extra["map_chunk_arithmetic_drift"] = len(v["drift"])
-            vlib.log("  [note] %d Map calls used other chunk bounds than MapChunks.tla (still a partition): model drift" % len(v["drift"]))
+            ck.extra["map_or_lazily_drift"] = len(v["drift"])
+            vlib.log("  [note] %d Map/Lazily events differ from MapChunks.tla / Lazily.tla outside what C19 states: model drift "
+                     "(first: %s)" % (len(v["drift"]), json.dumps(evs[v["drift"][0] - 1])[:300]))
         ck.samples.append({"source": "Map call", "event": evs[len(evs) // 4]})
         ck.nontrivial = len(nontriv)
     finally:
